@@ -5,6 +5,7 @@ import (
 	"fmt"
 	"os"
 	"runtime/debug"
+	"runtime/pprof"
 	"strings"
 	"time"
 )
@@ -25,6 +26,12 @@ func main() {
 
 	start := time.Now()
 	code := 0
+	if pf := os.Getenv("LH_PROF"); pf != "" {
+		if f, err := os.Create(pf); err == nil {
+			pprof.StartCPUProfile(f)
+			defer func() { pprof.StopCPUProfile(); f.Close() }()
+		}
+	}
 	func() {
 		defer func() {
 			if r := recover(); r != nil {
@@ -71,6 +78,7 @@ func main() {
 			code = runChecks(*repo, *prop, *tier, *outDir, *known, *explain, *goarch, start)
 		}
 	}()
+	pprof.StopCPUProfile()
 	os.Exit(code)
 }
 
